@@ -43,6 +43,14 @@ Section Claims.
     destruct (n <? HDR + plen r); [reflexivity|]. cbn [wf_recs forallb]. rewrite Hr. apply IH. exact Hrest.
   Qed.
 
+  (* the completely present records are an initial segment of the written records *)
+  Lemma whole_prefix_initial : forall rs n, exists k, whole_prefix rs n = firstn k rs.
+  Proof.
+    induction rs as [|r rest IH]; intros n; cbn [whole_prefix]; [exists 0; reflexivity|].
+    destruct (n <? HDR + plen r); [exists 0; reflexivity|].
+    destruct (IH (n - reclen r)) as [k Hk]. exists (S k). cbn [firstn]. now rewrite Hk.
+  Qed.
+
   Lemma enc_length_cons r rest : length (enc (r :: rest)) = reclen r + length (enc rest).
   Proof. change (enc (r :: rest)) with (enc_rec r ++ enc rest). rewrite app_length, (enc_rec_length r). reflexivity. Qed.
 
@@ -178,6 +186,14 @@ Section Claims.
     apply items_eqb_length in E. rewrite map_length in E. lia.
   Qed.
 
+  Lemma legacy_defect_exact rs n : wf_recs env evs rs = true ->
+    ok_cut rs n (read_file false env evs wv (firstn n (enc rs))) = negb (defect_cut false rs n).
+  Proof.
+    intros Hw. destruct (defect_cut false rs n) eqn:E.
+    - exact (guard_exact rs n Hw E).
+    - exact (stream_prefix_legacy_ok rs n Hw E).
+  Qed.
+
   Lemma stream_prefix_fixed_ok rs n : wf_recs env evs rs = true ->
     ok_cut rs n (read_file true env evs wv (firstn n (enc rs))) = true.
   Proof. intros Hw. rewrite stream_prefix_fixed by exact Hw. unfold ok_cut. cbn [fst snd]. now rewrite items_eqb_refl. Qed.
@@ -230,7 +246,7 @@ Section Claims.
   Qed.
 End Claims.
 
-(* ------------------------------------------------------------------ the defect, concretely (DESIGN section 9 #6) *)
+(* ------------------------------------------------------------------ the legacy defect, concretely (DESIGN section 9 #6, repaired by ec00259) *)
 Definition w_envl : list (N * N * (list aspec * list aspec)) := [(4198656%N, 128%N, ([AStr; AStr; AFix 4], [AFix 4]))].
 Definition w_hdr t ty mo d a := {| h_time := t; h_type := ty; h_more := mo; h_magic := RECORD_MAGIC; h_depth := d; h_addr := a |}.
 Definition w_rs : list rec :=
